@@ -408,6 +408,7 @@ def r01_5(run, rid='R01.5', classes=('2xx', '5xx', 'other', 'none')):
                    'no-fire', 'a Deferred is fired for a code that is neither 2xx nor 5xx')
                 continue
             if cls == '6xx':
+                ob('event: dispatched, not refused', normal, 'event-not-refused', 'a reply with a 6xx code raises instead of being dispatched to listeners')
                 if normal:
                     ob('event: exactly one _handle_notify', tags.count('notify') == 1, 'notify-once',
                        '6xx reply dispatches %d notifications' % tags.count('notify'))
@@ -591,7 +592,11 @@ def r01_8(run):
 
     def uses_line(a):
         return any(isinstance(x, ast.Name) and x.id == p for x in ast.walk(a))
-    for pa in gb.paths():
+    all_paths = []
+    for c_ in [c for c in code_reps(run) if c is not None]:
+        for pa in gb.paths(eval_hook=code_hook(c_)):
+            all_paths.append((c_, pa))
+    for c_, pa in all_paths:
         run.paths_enumerated += 1
         if pa.exit == 'raise':
             continue
@@ -612,6 +617,19 @@ def r01_8(run):
                     isinstance(x, ast.Call) and isinstance(x.func, ast.Subscript) for x in ast.walk(n.ast.value)):
                 k_txt += 1
         seen_payload += 1
+        # which of the two: the callback exactly when the reply is 2xx and the in-flight command has one
+        has_cb = [b for n, b in pa.took(lambda t: 'self.command' in src(t))]
+        opaque = any(n.kind == 'test' and isinstance(n.ast, ast.Call) and (dotted(n.ast.func) or '').startswith('self.') for n, _ in pa.steps)
+        if not has_cb and not opaque and code_class(c_) == '2xx' and k_cb + k_txt == 1:
+            run.ob('R01.8', bc, bc.node, 'for a 2xx reply (code %d) the per-line callback is consulted for the final line' % c_, False, slot='final-line-target:2xx:unconsulted',
+                   message='_broadcast_response puts the final line of a reply with code %d into the reply text without looking whether the command has a per-line callback' % c_,
+                   path=pa.describe(8))
+        if has_cb and not opaque and k_cb + k_txt == 1:
+            want_cb = code_class(c_) == '2xx' and all(has_cb)
+            run.ob('R01.8', bc, bc.node, 'final line of a %s reply (code %d), line callback %s: goes to the %s' % (code_class(c_), c_, 'present' if all(has_cb) else 'absent', 'callback' if want_cb else 'reply text'),
+                   (k_cb == 1) == want_cb, slot='final-line-target:%s:%s' % (code_class(c_), 'cb' if all(has_cb) else 'nocb'),
+                   message='_broadcast_response hands the final line of a reply with code %d (%s a per-line callback) to the %s' % (c_, 'with' if all(has_cb) else 'without', 'callback' if k_cb else 'reply text'),
+                   path=pa.describe(8))
         run.ob('R01.8', bc, bc.node, 'the status line\'s payload goes to the per-line callback or to the reply text, exactly one of them',
                k_cb + k_txt == 1, slot='one-of:_broadcast_response',
                message='_broadcast_response: payload of the final line delivered %d times to the callback and %d times to the reply text on path %s'
@@ -848,6 +866,7 @@ RULES = [
 from ..selftest import M  # noqa: E402
 F = 'txtorcon/torcontrolprotocol.py'
 MUTANTS = [
+    M('code-200-not-2xx-for-linecb', F, "            if self.code >= 200 and self.code < 300 and \\\n               self.command and self.command[2] is not None:", "            if self.code > 200 and self.code < 300 and \\\n               self.command and self.command[2] is not None:", ['R01.8']),
     M('final-line-payload-dropped', F, "                self.command[2](line[4:])\n                resp = ''", "                resp = ''", ['R01.8']),
     M('issue-wipes-accumulator', F, "            self.defer = d\n", "            self.defer = d\n            self.response = ''\n", ['R01.11']),
     M('linecb-for-5xx', F, "        return self.code >= 200 and self.code < 300 and \\\n            self.command", "        return self.code < 600 and \\\n            self.command", ['R01.9']),
